@@ -81,6 +81,22 @@ impl ProgressDrawTarget {
         }
     }
 }
+// LineAdjust::Clear(c): the next draw also clears c more rows; Keep(c): it leaves c rows alone
+spec fn adj_count(n: usize, adjust: LineAdjust) -> usize {
+    match adjust {
+        LineAdjust::Clear(c) => if n + c.0 > usize::MAX { usize::MAX } else { (n + c.0) as usize },
+        LineAdjust::Keep(c) => if n >= c.0 { (n - c.0) as usize } else { 0usize },
+    }
+}
+spec fn adjusted(a: TargetKind, b: TargetKind, adjust: LineAdjust) -> bool {
+    match a {
+        TargetKind::Term { term, last_line_count, rate_limiter, draw_state } =>
+            b == (TargetKind::Term { term, last_line_count: VisualLines(adj_count(last_line_count.0, adjust)), rate_limiter, draw_state }),
+        TargetKind::TermLike { inner, last_line_count, rate_limiter, draw_state } =>
+            b == (TargetKind::TermLike { inner, last_line_count: VisualLines(adj_count(last_line_count.0, adjust)), rate_limiter, draw_state }),
+        _ => b == a,
+    }
+}
 // the limiter after a draw request: untouched by a forced request, one token-bucket step otherwise
 spec fn limiter_after(rl0: RateLimiter, rl1: RateLimiter, force: bool, now: Instant, granted: bool) -> bool {
     if force { rl1 == rl0 && granted }
@@ -89,20 +105,10 @@ spec fn limiter_after(rl0: RateLimiter, rl1: RateLimiter, force: bool, now: Inst
 }
 """
 
-BAR_SPEC2 = r"""
-// ProgressStyle::format_state (ASSUMED here: verified in the format_state unit): appends the bar's
-// rendering -- Bar lines only, none containing a newline -- for the given state and width
-uninterp spec fn fs_lines(style: ProgressStyle, st: ProgressState, width: u16) -> Seq<LineType>;
+TARGET_SPEC2 = r"""
 spec fn all_bars(ls: Seq<LineType>) -> bool { forall|i: int| 0 <= i < ls.len() ==> (#[trigger] ls[i]) is Bar }
 // size assumption on renderings and printed texts: few enough rows to count in 31 bits
 spec fn small(ls: Seq<LineType>) -> bool { lines_ok(ls) && forall|w: nat| 1 <= w <= 65535 ==> #[trigger] hts(ls, w, ls.len() as int) <= 0x1FFF_FFFF }
-impl ProgressStyle {
-    #[verifier::external_body]
-    fn format_state(&self, state: &ProgressState, lines: &mut Vec<LineType>, target_width: u16)
-        ensures final(lines)@ == old(lines)@ + fs_lines(*self, *state, target_width),
-                all_bars(fs_lines(*self, *state, target_width)), small(fs_lines(*self, *state, target_width))
-    { unimplemented!() }
-}
 // R5: `msg.lines().map(|l| LineType::Text(Into::into(l))).collect()`
 uninterp spec fn text_lines_of(msg: Seq<char>) -> Seq<LineType>;
 #[verifier::external_body]
@@ -194,11 +200,6 @@ proof fn lemma_small_empty_line()
     }
     assert forall|w: nat| 1 <= w <= 65535 implies #[trigger] hts(Seq::<LineType>::empty(), w, 0) <= 0x1FFF_FFFF by { }
 }
-// the frame a bar shows: nothing once cleared (DoneHidden), else its rendering at the target's width
-spec fn frame_of(b: BarState) -> Seq<LineType> {
-    if b.state.status is DoneHidden { Seq::<LineType>::empty() }
-    else { match b.draw_target.own() { Some(x) => fs_lines(b.style, b.state, x.0.w as u16), None => Seq::<LineType>::empty() } }
-}
 spec fn drew(a: ProgressDrawTarget, b: ProgressDrawTarget, f: bool, now: Instant, lines: Seq<LineType>) -> bool {
     draw_effect(a, b, f, now, lines, Ok(())) || exists|e: IoError| #[trigger] draw_effect(a, b, f, now, lines, Err(e))
 }
@@ -208,11 +209,28 @@ proof fn lemma_drew(a: ProgressDrawTarget, b: ProgressDrawTarget, f: bool, now: 
 {
     match r { Ok(u) => { assert(r == Ok::<(), IoError>(())); } Err(e) => { assert(draw_effect(a, b, f, now, lines, Err(e))); } }
 }
-// everything of a bar except its draw target
-spec fn rest_same(a: BarState, b: BarState) -> bool { a.state == b.state && a.style == b.style && a.on_finish == b.on_finish && a.tab_width == b.tab_width }
 // R5: Vec::extend with an owned vector
 #[verifier::external_body]
 fn vec_extend(v: &mut Vec<LineType>, more: Vec<LineType>) ensures final(v)@ == old(v)@ + more@ { v.extend(more) }
+"""
+
+BAR_SPEC2 = r"""// ProgressStyle::format_state (ASSUMED here: verified in the format_state unit): appends the bar's
+// rendering -- Bar lines only, none containing a newline -- for the given state and width
+uninterp spec fn fs_lines(style: ProgressStyle, st: ProgressState, width: u16) -> Seq<LineType>;
+impl ProgressStyle {
+    #[verifier::external_body]
+    fn format_state(&self, state: &ProgressState, lines: &mut Vec<LineType>, target_width: u16)
+        ensures final(lines)@ == old(lines)@ + fs_lines(*self, *state, target_width),
+                all_bars(fs_lines(*self, *state, target_width)), small(fs_lines(*self, *state, target_width))
+    { unimplemented!() }
+}
+// the frame a bar shows: nothing once cleared (DoneHidden), else its rendering at the target's width
+spec fn frame_of(b: BarState) -> Seq<LineType> {
+    if b.state.status is DoneHidden { Seq::<LineType>::empty() }
+    else { match b.draw_target.own() { Some(x) => fs_lines(b.style, b.state, x.0.w as u16), None => Seq::<LineType>::empty() } }
+}
+// everything of a bar except its draw target
+spec fn rest_same(a: BarState, b: BarState) -> bool { a.state == b.state && a.style == b.style && a.on_finish == b.on_finish && a.tab_width == b.tab_width }
 #[verifier::external_body]
 fn clone_finish(f: &ProgressFinish) -> (r: ProgressFinish) ensures r == *f { unimplemented!() }
 """
@@ -291,7 +309,7 @@ fn opt_allow(rl: &mut Option<RateLimiter>, now: Instant) -> (res: bool)
 """),
         Fn(**dict(K.RL_ALLOW, stub=True)),
         Fn(**DRAWABLE_FN),
-        Raw(D.SPEC), Raw(D.DTT_PRED), Raw(WRAP_SPEC),
+        Raw(D.SPEC), Raw(D.DTT_PRED), Raw(WRAP_SPEC), Raw(TARGET_SPEC2),
         Fn(**D.DTT_STUB),
         Fn("src/draw_target.rs", "DrawState", "reset", ensures=[("cleared", "final(self).lines@.len() == 0 && final(self).move_cursor == old(self).move_cursor && final(self).alignment == old(self).alignment")]),
         Fn("src/draw_target.rs", "DrawStateWrapper", "for_term", ret="r",
@@ -343,6 +361,19 @@ fn opt_allow(rl: &mut Option<RateLimiter>, now: Instant) -> (res: bool)
            requires=[("term", 'self matches Drawable::Term { term: t, last_line_count: l, draw_state: d } ==> t@.wf() && t@.w <= 65535 && l.0 <= 0x7FFF_FFFF'), ("termlike", 'self matches Drawable::TermLike { term_like: t, last_line_count: l, draw_state: d } ==> t@.wf() && t@.w <= 65535 && l.0 <= 0x7FFF_FFFF')],
            ensures=[("term", 'self matches Drawable::Term { term: t, last_line_count: l, draw_state: d } ==> exists|e: DrawState| e.lines@.len() == 0 && e.move_cursor == d.move_cursor && e.alignment == d.alignment && #[trigger] dtt_post(e, *final(d), t@, final(t)@, *l, *final(l), r)'), ("termlike", 'self matches Drawable::TermLike { term_like: t, last_line_count: l, draw_state: d } ==> exists|e: DrawState| e.lines@.len() == 0 && e.move_cursor == d.move_cursor && e.alignment == d.alignment && #[trigger] dtt_post(e, *final(d), t@, final(t)@, *l, *final(l), r)'),
                     ("multi", "self matches Drawable::Multi { state: s, idx, force_draw, now } ==> final(s).hidden() == s.hidden() && (s.hidden() ==> final(s).ops() == s.ops())")]),
+        Fn("src/draw_target.rs", "VisualLines", "saturating_add", ret="r",
+           ensures=[("def", "r.0 as int == if self.0 + other.0 > usize::MAX { usize::MAX as int } else { self.0 + other.0 }")]),
+        Fn("src/draw_target.rs", "VisualLines", "saturating_sub", ret="r",
+           ensures=[("def", "r.0 as int == if self.0 >= other.0 { self.0 - other.0 } else { 0 }")]),
+        Fn("src/draw_target.rs", "TargetKind", "adjust_last_line_count",
+           ensures=[("C03-adjust", "adjusted(*old(self), *final(self), adjust)")]),
+        Fn("src/draw_target.rs", "ProgressDrawTarget", "adjust_last_line_count",
+           ensures=[("C03-adjust", "adjusted(old(self).kind, final(self).kind, adjust)")]),
+        Fn("src/draw_target.rs", "Drawable", "adjust_last_line_count",
+           ensures=[("term", "*old(self) matches Drawable::Term { term: t, last_line_count: l, draw_state: d } ==> (*final(self) matches Drawable::Term { term: t2, last_line_count: l2, draw_state: d2 } "
+                             "&& *t2 == *t && *final(t2) == *final(t) && *d2 == *d && *final(d2) == *final(d) && *final(l2) == *final(l) && l2.0 == adj_count(l.0, adjust))"),
+                    ("termlike", "*old(self) matches Drawable::TermLike { term_like: t, last_line_count: l, draw_state: d } ==> (*final(self) matches Drawable::TermLike { term_like: t2, last_line_count: l2, draw_state: d2 } "
+                             "&& *t2 == *t && *final(t2) == *final(t) && *d2 == *d && *final(d2) == *final(d) && *final(l2) == *final(l) && l2.0 == adj_count(l.0, adjust))")]),
         # ---- BarState level
         Decl("src/state.rs", "struct", "AtomicPosition"),
         Decl("src/state.rs", "enum", "Status"),
